@@ -815,6 +815,15 @@ func verifDiffAny(a, b JsonNode, options []Option) Diff { return a.Diff(b, optio
 // shape, several members in any order).
 func verifKeyedDiff(a, b JsonNode, options []Option) Diff { return a.Diff(b, options...) }
 
+// verifReadPatchKeys (C10): the same statement with a as the only target, over all the keys that need
+// (or seem to need) pointer escaping, non-ASCII keys included.
+func verifReadPatchKeys(a, b JsonNode) bool { return verifReadPatchFaithful(a, b, a) }
+
+// verifMergeBags (C11): verifRenderMergeFaithful over arrays whose members are arrays with repeats.
+func verifMergeBags(a, b JsonNode, options []Option) bool {
+	return verifRenderMergeFaithful(a, b, options)
+}
+
 // verifReadPatchContext (C10): the same statement over documents whose lists carry context lines
 // (null context values, keys that need pointer escaping) and targets that differ from a only there.
 func verifReadPatchContext(a, b, c JsonNode) bool { return verifReadPatchFaithful(a, b, c) }
